@@ -225,6 +225,10 @@ fn corpus() -> Vec<Edge> {
         edge("colliding-field-wire-names", "#[typeshare]\npub struct S { #[serde(rename = \"a-b\")] pub p: u8, #[serde(rename = \"a_b\")] pub q: u8, #[serde(rename = \"a.b\")] pub r: u8, #[serde(rename = \"a b\")] pub s: Option<u8>, #[serde(rename = \"A_B\")] pub t: u8, pub a_b: u8, pub aB: u8 }\n#[typeshare]\n#[serde(tag = \"t\", content = \"c\")]\npub enum E { V { #[serde(rename = \"k-1\")] a: u8, #[serde(rename = \"k_1\")] b: u8, #[serde(rename = \"k.1\")] c: u8 } }\n"),
         edge("colliding-type-names-after-normalisation", "#[typeshare]\npub struct AccountId { pub a: u8 }\n#[typeshare]\npub struct AccountID { pub b: u8 }\n#[typeshare]\n#[serde(rename = \"Account_Id\")]\npub struct AccountId3 { pub c: u8 }\n#[typeshare]\npub struct Holder { pub x: AccountId, pub y: AccountID, pub z: AccountId3 }\n#[typeshare]\n#[serde(tag = \"t\", content = \"c\")]\npub enum E { Holder { x: u8 }, EHolder(u8), E_Holder { y: u8 } }\n#[typeshare]\npub struct EHolderInner { pub w: u8 }\n"),
         edge("colliding-generic-parameters-and-consts", "#[typeshare]\npub struct G<T, t, T_> { pub a: T, pub b: t, pub c: T_ }\n#[typeshare]\npub const MY_CONST: u32 = 1;\n#[typeshare]\npub const my_const: u32 = 2;\n#[typeshare]\npub const MyConst: u32 = 3;\n"),
+        // multi-line doc text whose continuation lines begin with white space that is not ASCII (what CJK editors and
+        // copy-paste from web pages leave behind): character counts and byte offsets part ways
+        edge("block-doc-non-ascii-indentation", "#[typeshare]\n/** first\n\u{3000}second\n\u{a0}* third\n\u{2003}\u{2003}fourth\n\u{3000}*/\npub struct A {\n    /** f\n\u{3000}\u{3000}g */\n    pub a: u8,\n    #[doc = \"x\\n\u{3000}y\\n\u{a0}\"]\n    pub b: u8,\n}\n#[typeshare]\n#[doc = \"e\\n\u{2028}\u{3000}* f\"]\n#[serde(tag = \"t\", content = \"c\")]\npub enum E {\n    /** v\n\u{a0}w */\n    V,\n    W {\n        /** p\n\u{3000}q\u{3000}\n\u{3000}*/\n        x: u8,\n    },\n}\n#[typeshare]\n/** alias\n\u{feff}\u{3000}text */\npub type Al = Vec<u8>;\n#[typeshare]\n/** const\n\u{3000}text */\npub const K: u32 = 1;\n"),
+        edge("block-doc-ascii-decoration", "#[typeshare]\n/**\n * first\n *\tsecond\n \t * third\n **/\npub struct A {\n    /** f\n\n\n      g */\n    pub a: u8,\n}\n"),
         edge("macro-rules-with-attr", "macro_rules! m { () => { #[typeshare] pub struct InMacro { pub a: u8 } } }\nm!();\n#[typeshare]\npub struct A { pub a: u8 }\n"),
     ];
     // bare `use` of a crate name and odd use trees (multi-file import collection)
